@@ -121,7 +121,7 @@ def coq_make(targets=None, timeout=3100):
         return rc == 0, so + se
 
 
-def ocaml_build(*engines, timeout=600):
+def ocaml_build(*engines, timeout=2400):
     """Extract + build the OCaml runner(s) build/ocaml/<engine>/run; no argument = all
     engines.  Returns (ok, log)."""
     rc, so, se = sh([os.path.join(VERIF, "bin", "build-ocaml")] + list(engines), timeout=timeout)
